@@ -137,3 +137,22 @@ Theorem peer_uses_are_authentic :
          else carried_rev (init_segid (peer_use mac b pi)) hs true true.
 Proof. intros. apply peer_desc_auth; assumption. Qed.
 Print Assumptions peer_uses_are_authentic.
+
+(** Closing the loop with the SDK's own router: after the repairs recorded in
+    known_findings/C13.json, the simulated router ([sdk_sim], the statement-by-statement model
+    of pocketscion's SpecRoutingLogic) delivers every such assembled path too -- shortcuts
+    included -- at its destination (consequence of the previous theorem and of C13's
+    completeness theorem).  Peering paths it does not carry (finding C13-peering-unsupported). *)
+Theorem combined_paths_delivered_by_sdk_router :
+  forall (key : Type) (mac : key -> N -> N -> N -> N -> N -> N) (t : topology key) (now dst : N)
+         (b : buse) (bs : list buse) (pk : packet),
+    wf_topo t = true ->
+    Forall (fun b => (S (bu_k b) < length (bu_us b))%nat) (b :: bs) ->
+    assemble dst (map (use_of mac) (b :: bs)) = Some pk ->
+    exists d r, g_hops (tseg_of mac b) = d :: r /\
+      (route_topo t now (tseg_of mac b) d r (map (tseg_of mac) bs) dst ->
+       exists tr pk' pre il,
+         sdk_sim mac (length r + S (fuel_rest (map (tseg_of mac) bs))) t now (d_ia d) 0 pk = (tr, EndVerdict, pk')
+         /\ tr = pre ++ [mkStep dst il ALocal]).
+Proof. intros. apply combined_delivers_sdk; assumption. Qed.
+Print Assumptions combined_paths_delivered_by_sdk_router.
